@@ -32,6 +32,7 @@ type HarnessSpec struct {
 	Quick    map[string]int `json:"quick"`    // params; absent = not in this tier
 	Thorough map[string]int `json:"thorough"` // params
 	MaxPaths int            `json:"max_paths"`
+	MaxSteps int64          `json:"max_steps"` // instruction budget per path (0 = engine default)
 	Desc     string         `json:"desc"`
 	NoReplay bool           `json:"no_replay"` // harness has no native counterpart (engine-only observation)
 }
@@ -271,7 +272,7 @@ func runCheck(id, tier, only string, workers int, verbose bool) int {
 			stmo = 60000
 			nsamples = 16
 		}
-		rep := pr.Run(module+"/"+j.h.Pkg, j.h.Func, interp.RunConfig{Workers: workers, MaxPaths: maxPaths, Samples: nsamples, Params: j.params, SolverTimeoutMS: stmo, KeepScripts: true})
+		rep := pr.Run(module+"/"+j.h.Pkg, j.h.Func, interp.RunConfig{Workers: workers, MaxPaths: maxPaths, MaxSteps: j.h.MaxSteps, Samples: nsamples, Params: j.params, SolverTimeoutMS: stmo, KeepScripts: true})
 		fmt.Fprintf(os.Stderr, "[%s] %s %v: paths=%d completed=%d infeasible=%d forks=%d asserts=%d violations=%d unsupported=%d unwind=%d errors=%d solver=%.1fs wall=%v\n",
 			id, j.h.Func, j.params, rep.Paths, rep.Completed, rep.Infeasible, rep.Forks, rep.Asserts, len(rep.Violations), rep.Unsupported, rep.Unwind, rep.EngineErrors, float64(rep.Solver.TimeNS)/1e9, rep.Wall.Round(time.Millisecond))
 		totalPaths += rep.Paths
